@@ -56,11 +56,11 @@ class Engine:
         self.nfresh += 1
         v = ir.var('%s!%d' % (name, self.nfresh), sort)
         self.vars[v.args[0]] = v
-        if lo is not None:
-            self.assume(ir.gt(v, lo) if lo_open else ir.ge(v, lo))
-            if sort != 'B' and (lo > 0 or (lo == 0 and (lo_open or nonzero))): ir.KNOWN_POS.add(v.id)
+        if lo is not None: self.assume(ir.gt(v, lo) if lo_open else ir.ge(v, lo))
         if hi is not None: self.assume(ir.lt(v, hi) if hi_open else ir.le(v, hi))
         if nonzero: self.assume(ir.ne(v, 0))
+        # only now (after the solver has the assumptions) may the IR fold comparisons that follow from them
+        if lo is not None and sort != 'B' and (lo > 0 or (lo == 0 and (lo_open or nonzero))): ir.KNOWN_POS.add(v.id)
         return v
 
     # ------------------------------------------------------------ z3 translation
